@@ -470,12 +470,14 @@ class DictReader:
             name = json_instruction["name"]
             ty = self.get_type(json_instruction["type"])
             address = self.get_value_ref(json_instruction["address"])
-            instruction = ir.Load(address, name, ty)
+            volatile = json_instruction["volatile"]
+            instruction = ir.Load(address, name, ty, volatile=volatile)
             self.register_value(instruction)
         elif itype == "store":
             value = self.get_value_ref(json_instruction["value"])
             address = self.get_value_ref(json_instruction["address"])
-            instruction = ir.Store(value, address)
+            volatile = json_instruction["volatile"]
+            instruction = ir.Store(value, address, volatile=volatile)
         elif itype == "alloc":
             name = json_instruction["name"]
             amount = json_instruction["size"]
